@@ -43,7 +43,7 @@ separate and not part of the patch).
 
 Then write a demonstration: a Go test file (or small program) that FAILS with your change applied and PASSES on the unchanged code,
 and that shows the property being violated through observable behaviour. Verify both directions yourself (git stash / git diff >
-patch; git checkout; run; re-apply).
+patch; git checkout; run; re-apply). NEVER use `git stash` (the stash is shared between worktrees of other workers).
 
 Environment: no network. Use the Go toolchain at /root/go/pkg/mod/golang.org/toolchain@v0.0.1-go1.26.0.linux-amd64/bin/go with
 env GOFLAGS=-mod=mod GOPROXY=off GOSUMDB=off GOTOOLCHAIN=local. The machine is shared: do not run more than one test-suite run at a time.
